@@ -416,3 +416,85 @@ def r1d_greedy_keys(repo, rep):
       mate = [m for m, c2 in pops if c2.func.value.id in T and c2.args and norm(c2.args[0]) == keyt and (m is n or m in block_of(n))]
       rep.check(bool(mate), 'R1d/dict-keys', 'a key removed from the control table is removed from the treatment table in the same block', f.qualname, norm(call)[:60],
                 'key %s is removed from the control table but not from the treatment table: the final loop then reads a missing control key (KeyError)' % keyt, f.loc(call))
+
+
+# ---------------------------------------------------------------------------------------------
+# R1g: integer-documented parameters used as range()/slice bounds are ints (normalised by the validator)
+# ---------------------------------------------------------------------------------------------
+INT_FIELDS = {'n_test', 'n_geos_max', 'n_pretest_max', 'n_designs', 'treatment_geos_range', 'control_geos_range'}
+
+
+def params_normalised(repo):
+  """The validators store accepted integer-valued values as int: setattr(self, attr, int(...)) under isinstance(bound/lower, int)."""
+  cls = repo.cls('tbrmmdesignparameters.TBRMMDesignParameters')
+  ok = {}
+  for hname, guard in (('_test_value_vs_threshold', 'bound'), ('_test_range', 'lower')):
+    f = cls.methods.get(hname)
+    ok[hname] = False
+    if f is None:
+      continue
+    ctx = FuncCtx.of(f)
+    g, rd = ctx.g, ctx.rd
+    for n in g.nodes:
+      if n.kind != 'stmt':
+        continue
+      for call in au.calls_in(n.ast):
+        if isinstance(call.func, ast.Name) and call.func.id == 'setattr' and len(call.args) == 3 and norm(call.args[0]) == f.params[0]:
+          v = call.args[2]
+          ints = [c for c in ast.walk(v) if isinstance(c, ast.Call) and isinstance(c.func, ast.Name) and c.func.id == 'int']
+          if not ints:
+            continue
+          # reached only when the bound is an int, and reached on every accepting path with an int bound
+          paths = pathcond.paths_to(g, lambda m: m is n, back_limit=0)
+          guarded = bool(paths)
+          for p in paths:
+            pf = pathcond.PathFacts(p, rd, keep=tuple(f.params))
+            if pf.feasible and not pf.every_case_has(lambda e, t: t and norm(e) == 'isinstance(%s, int)' % guard):
+              guarded = False
+          facts_ok = cfgmod.edge_filter_under(g, {}, extra=cfgmod.no_exc)
+          bypass = False
+          for p in pathcond.paths_to(g, lambda m: m is g.exit, back_limit=0):
+            pf = pathcond.PathFacts(p, rd, keep=tuple(f.params))
+            if not pf.feasible:
+              continue
+            on_path = any(x is n for x, _ in p)
+            int_bound = pf.every_case_has(lambda e, t: t and norm(e) == 'isinstance(%s, int)' % guard)
+            none_path = pf.every_case_has(lambda e, t: '_is_optional(' in norm(e) and t)
+            if int_bound and not on_path and not none_path:
+              bypass = True
+          ok[hname] = guarded and not bypass
+  return ok
+
+
+def r1g_integer_parameters(repo, rep, closure):
+  from mmsa.types import Types
+  ok = params_normalised(repo)
+  allok = all(ok.values())
+  n = 0
+  T = Types(repo)
+  for q, f in sorted(closure.items()):
+    ctx = FuncCtx.of(f)
+    for node in ctx.g.nodes:
+      for e in ctx.node_exprs(node):
+        for sub in walk_no_nested(e):
+          bounds = []
+          if isinstance(sub, ast.Call) and isinstance(sub.func, ast.Name) and sub.func.id == 'range':
+            bounds = [(a, 'range() argument') for a in sub.args]
+          elif isinstance(sub, ast.Subscript) and isinstance(sub.slice, ast.Slice):
+            bounds = [(b, 'slice bound') for b in (sub.slice.lower, sub.slice.upper) if b is not None]
+          elif isinstance(sub, ast.Subscript) and isinstance(sub.slice, ast.Tuple):
+            for el in sub.slice.elts:
+              if isinstance(el, ast.Slice):
+                bounds += [(b, 'slice bound') for b in (el.lower, el.upper) if b is not None]
+          for b, what in bounds:
+            txt = norm(ctx.rd.expand(node, b, depth=10)[0])
+            flds = sorted({m for m in INT_FIELDS if re.search(r'(parameters|_par|par)\.%s\b' % m, txt)})
+            if not flds:
+              continue
+            n += 1
+            which = '_test_range' if any(x.endswith('_range') for x in flds) else '_test_value_vs_threshold'
+            rep.check(ok.get(which, False), 'R1g/integer-parameters', '%s: %s `%s` uses %s, stored as int by the validator' % (f.name, what, norm(b)[:30], flds), f.qualname,
+                      '%s %s <- %s' % (what, norm(b)[:40], ', '.join(flds)),
+                      '%s uses the parameter %s as a %s, but the validator accepts integer-valued floats (e.g. 2.0) without converting them to int: range()/slicing then raises TypeError inside the search'
+                      % (f.qualname, ', '.join(flds), what), f.loc(sub))
+  rep.floor('range()/slice bounds fed by integer-valued parameters', n, 4)
